@@ -12,4 +12,4 @@ echo "--- demo on unchanged worktree"; PYTHONPATH=$WT /venv/bin/python $DEMO >/d
 git apply patch.diff
 echo "--- demo with patch"; PYTHONPATH=$WT /venv/bin/python $DEMO 2>&1 | tail -2; echo "exit=${PIPESTATUS[0]}"
 echo "--- tests with patch"; /venv/bin/python -m pytest -q -p no:cacheprovider --timeout=900 2>&1 | tail -1
-for id in "$@"; do echo "--- check $id with patch (IXAI_REPO=$WT)"; IXAI_REPO=$WT /verif/bin/check $id 2>&1 | tail -3 | cut -c1-330; done
+for id in "$@"; do echo "--- check $id with patch (IXAI_REPO=$WT)"; IXAI_REPO=$WT "$(cd "$(dirname "$0")/.." && pwd)"/bin/check $id 2>&1 | tail -3 | cut -c1-330; done
